@@ -491,6 +491,7 @@ def r16h(ck, prog, functions=None):
 
 def run(ck, progs):
     describe(ck)
+    ck.rule("R16i", "writing an msa does not change it (= R06i): a second kalign_write_msa on the same object gives what a first one would")
     ck.rule("R16h", "errno is read only under a test of the result of the call that sets it")
     ck.rule("R16g", "an owning local pointer is not overwritten while it is known to hold a live object unless the old value was saved or released just before")
     ck.rule("R16f", "msa.num_profiles is changed only together with a re-allocation of the sip / nsip / plen arrays it counts")
@@ -519,6 +520,8 @@ def run(ck, progs):
         n = ck.attempt(r16d, ck, prog)
         ck.floor("R16d", n, 12, "acquisitions in API-owned functions")
         ck.attempt(r16h, ck, prog)
+        from . import c06 as _c06
+        ck.borrow(_c06.r06i, prog, "R16i", ("R06i",))
         n = ck.attempt(r16g, ck, prog)
         ck.floor("R16g", n or 0, 1, "overwrites of live owning locals")
         cg = CallGraph(prog)
